@@ -131,6 +131,11 @@ def _season_slice(t, k):
 def _c08(payload):
     cfg = payload["cfg"]
     assert not cfg.get("off_season")
+    if cfg.get("gw") and len(set(cfg["gw"].get("values", []))) > 1:
+        # with a time-varying water table the "configured initial conditions" themselves depend on the start date (the initial
+        # content 'FC' means field capacity adjusted for the table depth on the first day, compartments below the table start
+        # saturated): a run started on a later planting date is configured differently, so the comparison is not defined
+        return {"status": "skipped", "violations": [], "why": "time-varying water table"}
     m0, t0 = run_cfg_tables(cfg)
     cs = m0._clock_struct
     start = pd.Timestamp(cs.simulation_start_date)
@@ -148,13 +153,18 @@ def _c08(payload):
             # "constant concentration" without a value means the concentration of the run's FIRST year: to give the
             # fresh run the same input, state that value explicitly
             c1["co2"]["current_concentration"] = float(m0.co2_concentration.current_concentration)
-        if c1.get("gw") and c1["gw"].get("method") == "Constant" and c1["gw"].get("dates"):
-            c1["gw"]["dates"] = [c1["start"]]
         m1 = sim.build_model(c1); m1._initialize()
         n = hstep - off + 1
         m1.run_model(num_steps=n, initialize_model=False)
         t1 = tables_of(m1)
         pairs += 1
+        # thermal-time crops without an explicit harvest date: the harvest dates of ALL seasons are derived at initialisation
+        # from the FIRST season's thermal calendar (MaturityCD + 30 days); a run started on season k's planting date derives
+        # them from season k's calendar.  When the two differ the runs are configured differently through that route: the
+        # violations of this season are tagged so that this (listed) finding is told apart from any other leak.
+        h0 = pd.Timestamp(cs.harvest_dates[k]); h1 = pd.Timestamp(m1._clock_struct.harvest_dates[0])
+        tag = ":harvest_date_from_first_season" if (cfg["crop"].get("harvest_date") is None and (h0.month, h0.day) != (h1.month, h1.day)) else ""
+        nv0 = len(viol)
         for nm, cols in (("flux", range(3, 16)), ("growth", range(2, 15)), ("storage", None)):
             a = t0[nm][off:hstep + 1]; b = t1[nm][0:n]
             if cols is None:
@@ -177,6 +187,9 @@ def _c08(payload):
                     viol.append(V("C08:summary:%s" % nm.replace(" ", "_"), "%s of season %d: %.17g in the multi-season run, %.17g in the fresh run" % (nm, k, a, b), season=k))
             if int(r0[3]) - off != int(r1[3]):
                 viol.append(V("C08:summary:harvest_step", "harvest step of season %d differs: %d vs %d" % (k, int(r0[3]) - off, int(r1[3])), season=k))
+        if tag:
+            for v in viol[nv0:]:
+                v["key"] += tag
     for v in viol:
         v["cfg"] = cfg
     return {"status": "ok", "violations": viol, "pairs": pairs}
@@ -576,6 +589,9 @@ def worker_C16(payload):
         if x["type"] == "ZeroDivisionError" and "run_single_timestep" in str(x["origin"]) and not sim.crop_params[cfg["crop"]["name"]].get("YldWC") \
                 and not cfg["crop"].get("kwargs", {}).get("YldWC"):
             tag = ":YldWC0"
+        if x["type"] == "IndexError" and "read_model_parameters" in str(x["origin"]) and \
+                (pd.Timestamp(cfg["end"]) - pd.Timestamp(cfg["start"])).days < 366:
+            tag = ":window_under_one_year"
         return {"status": "exception", "exc": x, "cfg": cfg,
                 "violations": [dict(V("C16:raises:%s:%s%s" % (x["type"], x["origin"], tag), "valid configuration raised %s at %s: %s" % (x["type"], x["last"], x["msg"][:160]), exc=x), cfg=cfg)]}
     t = tables_of(m)
